@@ -201,6 +201,23 @@ pub fn run_c13(cx: &Ctx) -> i32 {
                     }
                     _ => t.count("lookbehind_other_compile_error", 1),
                 }
+                // B2: a rejected look-behind stays rejected wherever the pattern is embedded, also
+                // where it can never be executed (the length check is a property of the pattern text,
+                // not of the paths a search takes)
+                if matches!(&compiled, Err(CompileFail::Err(kind)) if kind == "Compile:LookBehindNotConst") && facts.n_groups == 0 && !facts.has_backref && !facts.has_cond {
+                    for host in ["(?:□){0}a", "(?:□){0,0}", "(?:□)?a", "a|□", "(?!□)a", "(?>□)*", "(?(a)□|b)", "(□)", "(?=□)", "(?:a{0}|(?:□){0})b"] {
+                        let hp = host.replace('□', &pattern);
+                        t.evaluations += 1;
+                        if engine::compile(&hp).is_ok() {
+                            t.violation(
+                                weight(&hp, ""),
+                                jobj! {"kind" => "c13", "pattern" => hp.as_str(), "text" => "", "pos" => 0, "observed" => "compiles",
+                                "summary" => format!("/{}/ compiles although its part /{}/ is rejected with LookBehindNotConst", hp, pattern)},
+                            );
+                        }
+                    }
+                    t.count("rejected_lookbehinds_embedded_in_hosts", 1);
+                }
             }
         });
         t
@@ -239,7 +256,7 @@ pub fn run_c13(cx: &Ctx) -> i32 {
         t,
         Finish {
             rule: format!(
-                "A: every pattern of {} is parsed (Expr::parse_tree), analysed (hook H2, same tree shape) and run through the all-paths span recorder of the reference matcher over every text over {:?} up to length {} and every start; for every sub-expression node: min(observed character lengths) >= min_size and const_size implies every observed length == min_size (observation is a lower approximation, so this cannot raise a false alarm). B: a pattern with a look-behind one of whose top-level alternatives shows two observed lengths must be rejected, with CompileError::LookBehindNotConst. C: every accepted look-behind pattern of the look-behind sub-spaces, differential against the reference over texts over [a,b,e-acute,euro] (characters, not bytes; fails rather than reading before the start). distinct_nontrivial = sub-expression nodes with >= 2 distinct observed lengths plus non-trivial differential cases; D: a {}",
+                "A: every pattern of {} is parsed (Expr::parse_tree), analysed (hook H2, same tree shape) and run through the all-paths span recorder of the reference matcher over every text over {:?} up to length {} and every start; for every sub-expression node: min(observed character lengths) >= min_size and const_size implies every observed length == min_size (observation is a lower approximation, so this cannot raise a false alarm). B: a pattern with a look-behind one of whose top-level alternatives shows two observed lengths must be rejected, with CompileError::LookBehindNotConst; a pattern rejected that way stays rejected when embedded in ten hosts, including hosts in which it can never run ({{0}} repeats, dead alternatives). C: every accepted look-behind pattern of the look-behind sub-spaces, differential against the reference over texts over [a,b,e-acute,euro] (characters, not bytes; fails rather than reading before the start). distinct_nontrivial = sub-expression nodes with >= 2 distinct observed lengths plus non-trivial differential cases; D: a {}",
                 space.describe(), alphabet, max_len, counts::describe(counts::Which::C13, dense, top)
             ),
             exhaustive: true,
